@@ -638,6 +638,20 @@ fn generate_server_role(rng: &mut Rng, thorough: bool, which: &str) -> Vec<Case>
             v[i].1 = val;
             sets.push((v, "request-wrong-value"));
         }
+        // several further requests: the first waits in the (capacity-1) queue nobody reads, the others
+        // are refused -- none of this is the live session's business (C09: nothing may park the worker)
+        for k in [2usize, 3, 5] {
+            let mut args = vec![vec![0, 1, 0, 1, 1]];
+            for _ in 0..k {
+                args.push(spec(1, 0, 0, 2, 0));
+                args.push(b2a(&headers_bytes(&full)));
+            }
+            args.push(spec(0, 0, 250, 0, 0));
+            args.push(b2a(&uni_wt(0, b"uni-after-many-requests")));
+            args.push(spec(1, 0, 0, 0, 0));
+            args.push(b2a(&bi_wt(0, b"bi-after-many-requests")));
+            cs.push(Case::new(621, args, "many-connect-requests"));
+        }
         for (fields, label) in sets {
             let mut args = vec![vec![0, 1, 0, 1, 1]];
             args.push(spec(1, 0, 0, 2, 0));
